@@ -20,7 +20,7 @@ pub fn run(prop: &'static str, replay: Option<String>) -> i32 {
     if let Some(n) = std::env::var("VERIF_FAMILY_LIMIT").ok().and_then(|s| s.parse::<usize>().ok()) {
         grammars.truncate(n); // experiments only
     }
-    let (len_full, len, len_trivia, dev) = if thorough { (5, 7, 5, 2) } else { (4, 5, 4, 1) };
+    let (len_full, len, len_trivia, dev) = if thorough { (5, 6, 4, 2) } else { (4, 5, 4, 1) };
     let args = flags(prop, len_full, len, len_trivia, dev);
     let out = run_family(&grammars, &args, true);
     let mut cov = collect(prop, &out, &mut rep);
@@ -125,7 +125,7 @@ fn replay_one(prop: &'static str, path: &str, mut rep: Report) -> i32 {
     let v: serde_json::Value = serde_json::from_str(&std::fs::read_to_string(path).expect("read replay")).unwrap();
     let g = vmodel::sexp::from_sexp(v["replay"]["sexp"].as_str().expect("sexp in replay"));
     let thorough = rep.is_thorough();
-    let (len_full, len, len_trivia, dev) = if thorough { (5, 7, 5, 2) } else { (4, 5, 4, 1) };
+    let (len_full, len, len_trivia, dev) = if thorough { (5, 6, 4, 2) } else { (4, 5, 4, 1) };
     let args = flags(prop, len_full, len, len_trivia, dev);
     let out = run_family(&[g], &args, true);
     let mut cov = collect(prop, &out, &mut rep);
